@@ -2,6 +2,18 @@
 PY = "/venv/bin/python"
 
 REGISTRY = {
+    "C12": {
+        "modules": ["smdef"],
+        "level": "proof",
+        "level_text": "_State.__init__ (signature validation loop, accepted <=> legal signature and no name collision), _State.__call__ (always IllegalCallError), _StateData.__init__, "
+                      "_get_class_members (most derived definition wins, base-most class's members first) and _build_states (instantiable <=> exactly one first and at most one default state; "
+                      "state_names/state_descriptions list exactly the states in member order) are verified for every signature and member table.",
+        "level_note": "Reflection (inspect.signature, hasattr(StateMachine, .), __mro__/__dict__, eval, __set_name__ being called at class creation) and dict.update are assumed externals; "
+                      "_State.__set_name__ (alias / non-StateMachine owner) is covered by the bounded native stand-in only.",
+        "design_ref": "DESIGN.md section 5 C12",
+        "replay": [PY, "native/replay_c12.py"],
+        "standins": {"quick": {"bounded: small-scope class definitions through the real decorators/_build_states (forbidden names, signatures, aliasing, inheritance shapes)": [PY, "native/replay_c12.py"]}},
+    },
     "C17": {
         "modules": ["sharp"],
         "level": "proof",
@@ -104,9 +116,10 @@ for _pid, _txt in {
     "C13": "Contracts of AutonomousStateMachine.on_enable/on_iteration/done and of every inherited method re-verified for the AutonomousStateMachine receiver: the latch invariant AI1, "
            "L1 (latched off => nothing runs or changes), N1 (never cycles), X5.",
 }.items():
-    REGISTRY[_pid] = {"modules": ["sm"], "level": "proof", "level_text": _txt, "level_note": _SM_NOTE, "design_ref": f"DESIGN.md section 5 {_pid}",
+    REGISTRY[_pid] = {"modules": ["sm"], "module_groups": [["sm"], ["smdef"]] if _pid == "C03" else None, "level": "proof", "level_text": _txt, "level_note": _SM_NOTE, "design_ref": f"DESIGN.md section 5 {_pid}",
                       "replay": [PY, "native/replay_sm.py"],
                       "standins": {"quick": {"bounded: real StateMachine/AutonomousStateMachine on random machine shapes, histories and action scripts vs a reference simulator and statement-level monitors": [PY, "native/replay_sm.py"]}}}
+REGISTRY["C03"]["standins"]["quick"]["bounded: all 16 ordered parameter subsets x 4 decorators through the real adapter (each parameter receives its own value)"] = [PY, "native/replay_c12.py"]
 
 _ROBOT_MODS = ["ext_hal", "ext_time", "ext_ds", "control", "precise_delay", "selector", "robot"]
 _ROBOT_NOTE = ("Assumed: wpilib/hal/ntcore externals (DriverStation flags arbitrary, isFMSAttached stable within an iteration, NT setters do not raise); the component/feedback/"
